@@ -134,6 +134,15 @@ def run():
                 ar = R.ast_roles(r["ast"])
                 if kind == "tree" and k[1] == 1 and "rooted-leading-tree" in ar:
                     roles.add("rooted-leading-tree")
+                elif R.patch_rooted_leading_tree(r["row"]["re"]) is not None:
+                    # a rooted leading tree wildcard inside this (leading) branch: attributed to the
+                    # known finding only if the group obligation holds on the patched pattern
+                    prow = probe([{"op": "re", "re": R.patch_rooted_leading_tree(r["row"]["re"]), "groups": True}])[0]
+                    pg = [x for x in prow.get("groups", []) if x["index"] == k[1]]
+                    if pg:
+                        q = member(inter("WF", cat(pg[0]["left"], diff(pg[0]["sub"], may), pg[0]["right"])))
+                        if ses.solve([("p", q)], keep_unsat=False)["p"][0] == "unsat":
+                            roles.add("rooted-leading-tree")
                 if kind in ("alt", "rep") and ref.superposition_mismatch(r["ast"]):
                     roles.add("tree-at-branch-edge")
                 rep.candidate(roles, {"short": {"program": r["text"], "path": w, "capture_index": k[1],
@@ -145,6 +154,11 @@ def run():
     for k in pending:
         rep.undecided_add({"program": info[k][0]["text"], "group": k[1],
                            "why": "solver parses differ from the engine's parse on 4 successive witnesses"})
+    # between-capture clause (relang/between.py)
+    import between
+    structured = [r for r in usable if (len(r["row"].get("groups", [])) == len(r["row"]["caps"])
+                                        and not any(g["nested"] or g["under_repetition"] for g in r["row"].get("groups", [])))]
+    bstats = between.run_between(ses, structured, orbits)
     # concrete clauses on witness paths: capture 0 is the whole path; out-of-range index is None
     sample_items = [({"glob": r["text"]}, r["text"]) for r in usable[:300]]
     for k in list(info)[:1200:120]:
@@ -155,12 +169,13 @@ def run():
     rep.assumptions += [
         "group-local clause: for every parse (a superset of the engine's leftmost-first parse) a participating capture lies in the language its own sub-expression may match under the flags in force; wildcards/classes never capture a separator; a tree wildcard captures a run of complete components (by position)",
         "structure: one regex group per capturing top-level token, in order, not nested, not under a repetition, pattern anchored at both ends (hence capture 0 is the whole path and order/non-overlap follow)",
-        "the between-capture clause (text between consecutive captures) is not decided (DESIGN section 10: dropped first)",
+        "between-capture clause: per gap (before the first, between consecutive, after the last capture) the language of the top-level pieces of the compiled pattern between the two groups equals the reference language of the literal/separator tokens between the two sub-expressions; disagreements are replayed on a whole path through the real capture offsets (only for paths on which both neighbouring captures participate)",
         "well-formed paths (no '//'); programs with an unspecified construct (tree wildcard at a branch edge, reversed class range) are counted, not checked",
     ]
     return ses.finish(len({k[0] for k in info}), {
         "capture_groups_checked": len(info), "structure_checked": structural,
         "programs_unspecified": unspecified, "confirmed_outside": confirmed, "generated": stats,
+        "between": bstats,
         "functions_encoded": ["encode::encode (Grouping)", "Glob::captures", "MatchedText::get",
                                "From<regex::Captures> for MatchedText"]})
 
